@@ -958,6 +958,21 @@ class Message(ABC):
             super().__setattr__(name, value)
             return value
 
+    def __peek(self, name: str) -> Any:
+        """
+        Like ``getattr(self, name)``, but a lazily created default value is not kept
+        on the message. Used by the dict renderers, which recurse into unset
+        sub-messages when asked to include default values and must not leave that
+        (for recursive message types unbounded) chain of defaults behind.
+        """
+        value = self.__raw_get(name)
+        if value is not PLACEHOLDER:
+            return value
+        group = self._betterproto.oneof_group_by_field.get(name)
+        if group is not None and self._group_current[group] != name:
+            return getattr(self, name)  # raises the usual AttributeError
+        return self._get_field_default(name)
+
     def __setattr__(self, attr: str, value: Any) -> None:
         if (
             isinstance(value, Message)
@@ -1524,7 +1539,7 @@ class Message(ABC):
         for field_name, meta in self._betterproto.meta_by_field_name.items():
             field_is_repeated = defaults[field_name] is list
             try:
-                value = getattr(self, field_name)
+                value = self.__peek(field_name)
             except AttributeError:
                 value = self._get_field_default(field_name)
             cased_name = casing(field_name).rstrip("_")  # type: ignore
@@ -1821,7 +1836,7 @@ class Message(ABC):
         defaults = self._betterproto.default_gen
         for field_name, meta in self._betterproto.meta_by_field_name.items():
             field_is_repeated = defaults[field_name] is list
-            value = getattr(self, field_name)
+            value = self.__peek(field_name)
             cased_name = casing(field_name).rstrip("_")  # type: ignore
             if meta.proto_type == TYPE_MESSAGE:
                 if isinstance(value, datetime):
